@@ -857,6 +857,9 @@ class StoryMove(MosFile):
             raise MosMergeError(
                 f"{self.__class__.__name__} error in {self.message_id} - source story not found"
             )
+        if source_index < target_story_index:
+            # removing the source story shifts the target up by one
+            target_story_index -= 1
         remove_node(parent=ro.base_tag, node=source_story)
         insert_node(parent=ro.base_tag, node=source_story, index=target_story_index)
         return ro
